@@ -39,6 +39,8 @@ def attr_c01(ev, names):
 
 
 def attr_c02(ev, names):
+    if fam(ev, "a") and ev["op"] == "sqrt":
+        return any_in(names, {"root", "flags", "flagimp", "nbits"})      # Sqrt's Inexact is part of SqrtOK
     return fam(ev, "a") and ev["op"] in C02_OPS and any_in(names, {"flags", "flagimp", "nbits", "sys"})
 
 
@@ -75,7 +77,7 @@ PROPS = {
     ),
     "C02": dict(
         mc=[("MC_Round", None)],
-        drivers=["arithS", "arithL", "intS"],
+        drivers=["arithS", "arithL", "intS", "roots"],
         attr=attr_c02,
         rule="flag conjuncts of every recorded arithmetic event: decided bits equal the spec's, Inexact=>Rounded, "
              "Overflow=>Inexact, Underflow=>Subnormal&Inexact, no bit outside the 12 conditions",
@@ -222,6 +224,15 @@ PROPS["C16"] = dict(
          "and representation invariants on every register after every step (representation via the verif hook)",
     level_note="Trusted: TLC, spec/BigIntM.tla semantics for the core, math/big as the reference for the long tail (inherent in "
                "the property's wording), the VerifRepr hook. Bounded exploration.",
+)
+
+PROPS["C11"] = dict(
+    mc=[("MC_Roots", None)],
+    drivers=["roots"],
+    attr=lambda ev, names: fam(ev, "a") and ev["op"] in ("sqrt", "cbrt") and any_in(names, {"root", "val", "panic", "sys", "wf"}),
+    rule="Sqrt/Cbrt on operands aimed at rounding boundaries (r^2+-1, (r+1/2)^2+-eps, all-nines, perfect squares/cubes and "
+         "neighbours, odd/even exponents, operands longer than the precision) and seeded operands, accepted by integer "
+         "inequalities (SqrtOK / CbrtOK); results outside the normal range are not claimed",
 )
 
 HOOK_COMMITS = ["9935482", "75960a2"]
